@@ -25,7 +25,7 @@ theorem graph_covered_commands :
 `--sparse d` with `d ≤ s` draws a random bipartite graph inside the helper and is not mapped -/
 theorem stone_paths :
     (cliSpecs.filter (fun s => s.name == "stone")).map (fun s => s.templates.map (fun t =>
-      (t.raises != "" && shielded t.raises) || og_shapeOK s t)) = [[true, false, true]] := by decide +kernel
+      pathCovered s t)) = [[true, false, true]] := by decide +kernel
 
 /-! ### every mapped build step is clean -/
 
@@ -227,29 +227,26 @@ theorem specOf_mem (h : HelperSpec) (s : CliSpec) (hspec : specOf h = some s) : 
   unfold specOf at hspec
   exact List.mem_of_find?_eq_some hspec
 
-/-- T-C18.G3 END TO END with graph arguments.  For every covered sub-command (`graph_covered_commands`), EVERY token
-list of the argparse fragment and EVERY graph environment (whatever `make_graph_from_spec` made of the tokens of each
-graph argument: object or refusal), the run ends in `ok` or in a `cliError` — never an escaped exception, never an
-internal bug, never outside the model — and it ends in `ok` EXACTLY when the parser accepts the tokens, the path of
-the helper is a library call `c`, and the build step of `c` — graphs from `env`, then the family model — returns a
-formula (`withS_ok_iff`, `graph_generator_preconditions`: every graph argument was built and the generator's
-precondition holds). -/
-theorem end_to_end_graph (env : GraphEnv) (h : HelperSpec) (s : CliSpec) (hspec : specOf h = some s)
-    (hc : graphCovered s = true) (argv : List String) (hf : inFragment s argv = true) :
+/-- T-C18.G3 END TO END with graph arguments, path by path.  For every sub-command with standard options, EVERY token
+list of the argparse fragment and EVERY graph environment: the parser refuses the tokens (CLIError), or the helper takes a
+path `t` (`dispatchTemplate`); when that path is covered (`pathCovered`: it raises a shielded exception, or calls a
+mapped generator with arguments of the right sort) the run ends in `ok` or in a `cliError` — never an escaped
+exception, never an internal bug, never outside the model — and it ends in `ok` EXACTLY when the path is a library
+call `c` whose build step — graphs from `env`, then the family model — returns a formula. -/
+theorem end_to_end_graph_path (env : GraphEnv) (h : HelperSpec) (s : CliSpec) (hspec : specOf h = some s)
+    (hstd : s.standard = true) (argv : List String) (hf : inFragment s argv = true)
+    (hpath : ∀ t ns, dispatchTemplate s argv = .ok (t, ns) → pathCovered s t = true) :
     (cliOutcomeG env h argv = some .ok ∨ cliOutcomeG env h argv = some .cliError) ∧
     (cliOutcomeG env h argv = some .ok ↔
       ∃ t ns c bt, dispatchTemplate s argv = .ok (t, ns) ∧ instantiate ns t = .ok c ∧
         evalCallG env ns c = some bt ∧ bt.outcome = .ok) := by
-  have hstd : s.standard = true := by
-    unfold graphCovered at hc
-    simp only [Bool.and_eq_true] at hc
-    exact hc.1
   have hs := specOf_mem h s hspec
   unfold cliOutcomeG
   rw [hspec]
   dsimp only
   rcases parseArgs_total s hstd argv hf with ⟨b, hb⟩ | he
-  · obtain ⟨t, _, hd, hor⟩ := og_path s hstd hs hc argv b hb env
+  · obtain ⟨t, _, hd, hor⟩ := og_path s hstd hs argv b hb env
+    have hor := hor (hpath t _ hd)
     rw [hd]
     dsimp only
     rcases hor with ⟨_, hi⟩ | ⟨c, hi, hsome⟩
@@ -287,11 +284,149 @@ theorem end_to_end_graph (env : GraphEnv) (h : HelperSpec) (s : CliSpec) (hspec 
     · rintro ⟨t', ns', c', bt, h1, _⟩
       cases h1
 
+/-- the path a command line takes is one of the paths of the helper -/
+theorem dispatchTemplate_mem (s : CliSpec) (argv : List String) (t : CallTemplate) (ns : Ns)
+    (h : dispatchTemplate s argv = .ok (t, ns)) : t ∈ s.templates := by
+  unfold dispatchTemplate at h
+  split at h
+  · cases h
+  · split at h
+    · cases h
+    · split at h
+      · cases h
+      · rename_i t' hsel
+        cases h
+        clear * - hsel
+        generalize s.templates = ts at hsel
+        induction ts with
+        | nil => simp [selectTemplate] at hsel
+        | cons t1 rest ih =>
+          unfold selectTemplate at hsel
+          split at hsel
+          · cases hsel
+          · cases hsel; exact List.mem_cons_self ..
+          · exact List.mem_cons_of_mem _ (ih hsel)
+
+/-- T-C18.G3′ END TO END with graph arguments: for the covered sub-commands (`graph_covered_commands`: every path is
+covered) the conclusion of `end_to_end_graph_path` holds for EVERY token list of the fragment. -/
+theorem end_to_end_graph (env : GraphEnv) (h : HelperSpec) (s : CliSpec) (hspec : specOf h = some s)
+    (hc : graphCovered s = true) (argv : List String) (hf : inFragment s argv = true) :
+    (cliOutcomeG env h argv = some .ok ∨ cliOutcomeG env h argv = some .cliError) ∧
+    (cliOutcomeG env h argv = some .ok ↔
+      ∃ t ns c bt, dispatchTemplate s argv = .ok (t, ns) ∧ instantiate ns t = .ok c ∧
+        evalCallG env ns c = some bt ∧ bt.outcome = .ok) := by
+  unfold graphCovered at hc
+  simp only [Bool.and_eq_true] at hc
+  exact end_to_end_graph_path env h s hspec hc.1 argv hf
+    (fun t ns hd => List.all_eq_true.1 hc.2 t (dispatchTemplate_mem s argv t ns hd))
+
+/-- `stone`: every command line that does not take the path `--sparse d` with `d ≤ stones` (the helper then draws a
+random bipartite graph itself: not mapped) ends in `ok` or in a `cliError` -/
+theorem end_to_end_stone (env : GraphEnv) (h : HelperSpec) (s : CliSpec) (hspec : specOf h = some s)
+    (hname : s.name = "stone") (argv : List String) (hf : inFragment s argv = true)
+    (hpath : ∀ t ns, dispatchTemplate s argv = .ok (t, ns) → t.fn ≠ "SparseStoneFormula") :
+    cliOutcomeG env h argv = some .ok ∨ cliOutcomeG env h argv = some .cliError := by
+  have hs := specOf_mem h s hspec
+  have hall : ∀ s' ∈ cliSpecs, s'.name = "stone" →
+      s'.standard = true ∧ ∀ t ∈ s'.templates, t.fn ≠ "SparseStoneFormula" → pathCovered s' t = true := by
+    decide +kernel
+  obtain ⟨hstd, hcov⟩ := hall s hs hname
+  exact (end_to_end_graph_path env h s hspec hstd argv hf
+    (fun t ns hd => hcov t (dispatchTemplate_mem s argv t ns hd) (hpath t ns hd))).1
+
 /-- … in particular no exception escapes and `cli()` never reports an internal bug -/
 theorem never_escapes_graph (env : GraphEnv) (h : HelperSpec) (s : CliSpec) (hspec : specOf h = some s)
     (hc : graphCovered s = true) (argv : List String) (hf : inFragment s argv = true) :
     cliOutcomeG env h argv ≠ some .internalBug ∧ ∀ e, cliOutcomeG env h argv ≠ some (.escaped e) := by
   rcases (end_to_end_graph env h s hspec hc argv hf).1 with h1 | h1 <;> rw [h1] <;> simp
+
+/-! ### every formula sub-command: no escape wherever the model answers (`php`, `op`, `tseitin`, `subsetcard`, … included) -/
+
+theorem selectTemplate_error (ns : Ns) (ts : List CallTemplate) (e : CliErr) (h : selectTemplate ns ts = .error e) :
+    ∃ why, e = .unsupported why := by
+  induction ts with
+  | nil => simp only [selectTemplate, Except.error.injEq] at h; exact ⟨_, h.symm⟩
+  | cons t rest ih =>
+    unfold selectTemplate at h
+    split at h
+    · simp only [Except.error.injEq] at h; exact ⟨_, h.symm⟩
+    · cases h
+    · exact ih h
+
+/-- every path of every formula helper that raises, raises an exception `cli()` shields (ValueError / CLIError) -/
+theorem formula_helpers_raise_shielded :
+    (cliSpecs.filter (fun s => s.kind == "formula")).all
+      (fun s => s.templates.all (fun t => t.raises == "" || shielded t.raises)) = true := by decide +kernel
+
+/-- T-C18.G5 (partial for `php`, `op`, `tseitin`, `subsetcard`, `stone --sparse`: what is missing is that the model
+ANSWERS on every command line of the fragment — proved only for the sub-commands of `end_to_end`, `end_to_end_graph`
+and `end_to_end_stone`).  For EVERY formula sub-command the model handles, every token list of the fragment and every
+graph environment: whenever the model gives an outcome, it is `ok` or `cliError` — no path of `dispatch`, no mapped
+generator and no graph argument produces an escaping exception or an internal bug. -/
+theorem never_escapes_any_partial (env : GraphEnv) (h : HelperSpec) (s : CliSpec) (hspec : specOf h = some s)
+    (hkind : s.kind = "formula") (argv : List String) (hf : inFragment s argv = true) (o : Outcome)
+    (ho : cliOutcomeG env h argv = some o) : o = .ok ∨ o = .cliError := by
+  have hs := specOf_mem h s hspec
+  have hr : ∀ t ∈ s.templates, (t.raises == "" || shielded t.raises) = true := by
+    have := List.all_eq_true.1 formula_helpers_raise_shielded s
+      (List.mem_filter.2 ⟨hs, by simp [hkind]⟩)
+    exact List.all_eq_true.1 this
+  unfold cliOutcomeG at ho
+  rw [hspec] at ho
+  dsimp only at ho
+  cases hd : dispatchTemplate s argv with
+  | error e =>
+    rw [hd] at ho
+    unfold dispatchTemplate at hd
+    split at hd
+    · cases hd; cases ho
+    · rename_i hsup
+      have hsup' : s.supported = true := by simpa using hsup
+      rcases parseArgs_total_supported s hsup' argv hf with ⟨b, hb⟩ | hb
+      · rw [hb] at hd
+        dsimp only at hd
+        split at hd
+        · rename_i e' hsel
+          obtain ⟨why, rfl⟩ := selectTemplate_error _ _ _ hsel
+          cases hd; cases ho
+        · cases hd
+      · rw [hb] at hd
+        cases hd
+        cases ho
+        exact Or.inr rfl
+  | ok tn =>
+    obtain ⟨t, ns⟩ := tn
+    rw [hd] at ho
+    dsimp only at ho
+    have htm := dispatchTemplate_mem s argv t ns hd
+    cases hi : instantiate ns t with
+    | error e =>
+      rw [hi] at ho
+      unfold instantiate at hi
+      split at hi
+      · split at hi
+        · cases hi; cases ho; exact Or.inr rfl
+        · rename_i hne hns
+          have := hr t htm
+          simp only [Bool.or_eq_true, beq_iff_eq] at this
+          rcases this with h1 | h1
+          · rw [h1] at hne; simp at hne
+          · rw [h1] at hns; simp at hns
+      · split at hi
+        · cases hi; cases ho
+        · split at hi
+          · cases hi
+          · cases hi; cases ho
+    | ok c =>
+      rw [hi] at ho
+      dsimp only at ho
+      cases ha : evalCallAny env ⟨1, 0, [[], []], []⟩ ns c with
+      | none => rw [ha] at ho; cases ho
+      | some bt =>
+        rw [ha] at ho
+        simp only [Option.map_some, Option.some.injEq] at ho
+        subst ho
+        exact mapped_any_steps_clean env _ ns c bt ha
 
 /-! ### what a `GraphEnv` abstracts from the runs of `make_graph_from_spec` -/
 
